@@ -140,8 +140,12 @@ SPECS["C20"] = {
     "sweeps": [[]],
     "nontrivial": lambda c: any(t in c["tags"] for t in (
         "rr-concurrent-burst", "rr-cycled-twice", "ch-repeated-request", "retry-retried",
-        "retry-cap-reached")),
-    "rule": "one script = one stub configuration + a list of operations on the real stub over recording mock backends: "
+        "retry-cap-reached", "retry-retried-nondefault-context")),
+    "rule": "one script = one stub configuration + a list of operations on the real stub over recording mock backends; "
+            "every call is made with a scripted caller context (3 in 4 non-default: trace ids 0/1/7/42/2^64+5/2^128-1, any "
+            "span id, both sampling decisions, deadlines +1 h .. +1 ms, exactly now, -1 ms, -60 s, measured exactly under "
+            "the virtual clock) and every mock records the context it is handed (tags balance-nondefault-context, "
+            "retry-retried-nondefault-context, retry-retried-expired-deadline): "
             "40% RoundRobin (b in 1..8; single calls and bursts from 1-8 OS threads, each thread with its own clone of "
             "the stub, released by a barrier; for a burst only the per-backend counts are compared), 30% "
             "ConsistentHash::with_hasher (b in 1..16; hashers constant / identity / affine / FNV-1a / fold / std "
@@ -157,14 +161,18 @@ SPECS["C20"] = {
         "std Hash impl of u64 (write_u64 -> write of the 8 native-endian bytes); RangeFrom<u32>::next (successor "
         "computed before the value is handed out; panics at u32::MAX with overflow checks, wraps otherwise)",
     ],
-    "level_text": "Theorems C20_monitor, C20_round_robin_balanced, C20_rr_interleaving, C20_consistent_hash_valid/"
+    "level_text": "Theorems C20_monitor (now including 'every attempt / the chosen backend sees the caller's context'), "
+                  "C20_round_robin_balanced, C20_rr_interleaving, C20_consistent_hash_valid/"
                   "_deterministic, C20_retry (+ C20_round_robin_wrap_refuted, C20_retry_wrap_refuted showing the bounds are "
                   "necessary): in the model of load_balance.rs and retry.rs, for every backend count b >= 1 and every n <= "
                   "2^64 next() calls in any interleaving of atomic fetch_adds, any two backends' counts differ by at most "
                   "one; for every hasher function the consistent-hash pick is h(req) mod b < b and a function of the "
                   "request; for every retry policy and inner-stub behaviour whose first declined attempt is k < 2^32 (2^32-1 "
                   "with overflow checks), Retry::call makes exactly k inner calls with the same request, shows the policy "
-                  "(result j, attempt j) for j = 1..k and returns the k-th result unchanged. The model is tied to the code "
+                  "(result j, attempt j) for j = 1..k and returns the k-th result unchanged; C20_retry_same_context / "
+                  "C20_balance_same_context: for every policy, every number of attempts and every backend count, every "
+                  "attempt of Retry and the backend chosen by RoundRobin / ConsistentHash is handed exactly the caller's "
+                  "context (trace id, span id, sampling decision, deadline) and request. The model is tied to the code "
                   "by running generated operation lists on the real RoundRobin (also from 1-8 OS threads), "
                   "ConsistentHash::with_hasher (custom and std BuildHashers) and Retry over recording mocks and comparing "
                   "every observation inside Coq; the monitor proved correct for the model is also evaluated on the "
